@@ -107,6 +107,24 @@ def extract_facts():
         return True, out, digests
 
 
+def extract_mapranges():
+    """T1 (typed): tools/mapranges -> lean/Generated/MapRanges.lean (map-range sites, goroutines, clock reads, ToSlice consumers)."""
+    with Lock("extract"):
+        tool = os.path.join(BIN, "mapranges")
+        rc, out, dt = sh(["go", "build", "-o", tool, "."], cwd=os.path.join(VERIF, "tools", "mapranges"), env=go_env(), timeout=1800)
+        if rc != 0:
+            return False, out
+        p = subprocess.run([tool, REPO], stdout=subprocess.PIPE, stderr=subprocess.PIPE, text=True, env=go_env(), timeout=1800)
+        if p.returncode != 0 or "namespace Generated" not in p.stdout:
+            return False, (p.stderr or p.stdout)[-2000:]
+        dst = os.path.join(LEAN, "Generated", "MapRanges.lean")
+        old = open(dst).read() if os.path.exists(dst) else None
+        if old != p.stdout:
+            open(dst, "w").write(p.stdout)
+        log("mapranges: %.1fs + run, digest %s" % (dt, hashlib.sha256(p.stdout.encode()).hexdigest()[:16]))
+        return True, ""
+
+
 def lake_build(targets, timeout=3000):
     with Lock("lake"):
         rc, out, dt = sh(["lake", "build"] + targets, cwd=LEAN, timeout=timeout)
@@ -310,6 +328,11 @@ def run_check(pid, tier, seed, replay):
         fok, fout, facts_digests = extract_facts()
         if not fok:
             failures.append({"kind": "facts", "name": "extractor failed", "detail": fout[-3000:]})
+
+    if ok and P.get("mapranges"):
+        mok, mout = extract_mapranges()
+        if not mok:
+            failures.append({"kind": "facts", "name": "tools/mapranges failed", "detail": mout[-2000:]})
 
     # 3. proofs + audit
     modules = P["modules"]
